@@ -9,7 +9,7 @@ PARTIAL = ('real kernel proved (value = plain evaluation for every tree; role ir
 ASSUMPTIONS = ['rounding: values are computed by the same float operations as plain Python (validated bit-exactly by correspondence)']
 TRUSTED = ['Coquelicot and the Coq Reals library']
 
-def correspondence(rng, tier):
+def _base_correspondence(rng, tier):
     n = 240 if tier == 'quick' else 4000
     return kernel.run_kernel_corr(rng, n, 'value', 'C01', malformed_every=5)
 
@@ -67,3 +67,18 @@ def replay(payload):
         print('replayed failing input on the implementation:', 'STILL FAILS %r' % (r,) if r else 'passes now')
         return 1 if r else 0
     return 0
+
+def correspondence(rng, tier):
+    r = _base_correspondence(rng, tier)
+    # extra_corr: complex_value_programs: complex kernel programs (functions x points around every branch cut x operand kinds, operators x operand-kind pairs, ureal x complex-literal promotion), model CKernel.v
+    f = __import__('cgen').run_ckernel_corr(rng, 'value', 'C01c', tier=tier)
+    r['mismatches'] += f.get('mismatches', [])
+    r['programs'] += f.get('programs', 0); r['steps'] += f.get('steps', 0)
+    r['distinct'] = r.get('distinct', 0) + f.get('distinct', 0)
+    r.setdefault('distribution', {})['complex_value_programs'] = f.get('programs', 0)
+    r['rule'] = r.get('rule', '') + '; plus complex_value_programs: complex kernel programs (functions x points around every branch cut x operand kinds, operators x operand-kind pairs, ureal x complex-literal promotion), model CKernel.v'
+    return r
+
+def kf_C01_intermediate_times_complex():
+    import p_C03
+    return p_C03.kf_C01_intermediate_times_complex()
